@@ -58,9 +58,15 @@ pub fn add_re<A>(
         }
 
         Regex::CharSet(set) => {
+            // A character can be listed more than once, e.g. `['a' 'b' 'a']`
+            let mut seen: Vec<char> = vec![];
             for char in &set.0 {
                 match char {
                     CharOrRange::Char(char) => {
+                        if seen.contains(char) {
+                            continue;
+                        }
+                        seen.push(*char);
                         nfa.add_char_transition(current, *char, cont);
                     }
                     CharOrRange::Range(range_start, range_end) => {
